@@ -163,6 +163,7 @@ func cmdShard(args []string) int {
 	first := fs.Int64("first", 0, "")
 	stride := fs.Int64("stride", 1, "")
 	workers := fs.Int("workers", 1, "")
+	outFile := fs.String("out", "", "write the aggregate here (stdout may be polluted by the code under test)")
 	fs.Parse(args)
 	spec := props[*p]
 	if spec == nil {
@@ -172,6 +173,16 @@ func cmdShard(args []string) int {
 		Tag: sim.HashString(*p), Runs: *runs, Budget: time.Duration(*budget * float64(time.Second)), Workers: *workers, First: *first, Stride: *stride}
 	agg := b.Run()
 	agg.Seal()
+	if *outFile != "" {
+		f, err := os.Create(*outFile)
+		if err != nil {
+			fmt.Fprintln(os.Stderr, "shard:", err)
+			return 2
+		}
+		defer f.Close()
+		json.NewEncoder(f).Encode(agg)
+		return 0
+	}
 	json.NewEncoder(os.Stdout).Encode(agg)
 	return 0
 }
@@ -192,11 +203,23 @@ func runSharded(p string, tier string, seed uint64, runs int64, budget float64, 
 			}
 			ctx, cancel := context.WithTimeout(context.Background(), limit)
 			defer cancel()
+			tmp, terr := os.CreateTemp("", "simcheck-shard-*.json")
+			if terr != nil {
+				ch <- res{nil, terr}
+				return
+			}
+			tmp.Close()
+			defer os.Remove(tmp.Name())
 			cmd := exec.CommandContext(ctx, exe, "shard", "-p", p, "-tier", tier, "-seed", fmt.Sprint(seed), "-runs", fmt.Sprint(runs),
-				"-budget", fmt.Sprint(budget), "-first", fmt.Sprint(k), "-stride", fmt.Sprint(procs), "-workers", "1")
+				"-budget", fmt.Sprint(budget), "-first", fmt.Sprint(k), "-stride", fmt.Sprint(procs), "-workers", "1", "-out", tmp.Name())
 			cmd.Env = append(os.Environ(), "GOMAXPROCS=2")
 			cmd.Stderr = os.Stderr
-			out, err := cmd.Output()
+			cmd.Stdout = nil // the code under test may print (the regulator does on callback errors)
+			if err := cmd.Run(); err != nil {
+				ch <- res{nil, fmt.Errorf("shard %d: %v", k, err)}
+				return
+			}
+			out, err := os.ReadFile(tmp.Name())
 			if err != nil {
 				ch <- res{nil, fmt.Errorf("shard %d: %v", k, err)}
 				return
